@@ -111,7 +111,7 @@ def parse_assumptions(props_v):
     """Compile-free: list theorem names in a Props file."""
     with open(props_v) as f:
         src = f.read()
-    return re.findall(r'^\s*(?:Theorem|Corollary|Lemma)\s+([A-Za-z0-9_\']+)', src, re.M)
+    return re.findall(r'^\s*(?:Theorem|Corollary|Lemma)\s+([A-Za-z0-9_\']+)', src, re.M) + re.findall(r'^Definition\s+(C\d\d_[A-Za-z0-9_]+)\s*:=\s*@P_', src, re.M)
 
 
 def assumptions_from_output(out):
